@@ -40,28 +40,29 @@ var advances = []int{1, 199, 200, 201, 500, 999, 1000, 1001, 3000, 4999, 5000, 5
 
 var metaKeysChoices = [][]string{{"tenant"}, {"Tenant", "env"}, {"TENANT"}, {"env", "tenant", "Region"}}
 
+// tenantValues are value lists that a joined or normalised rendering would
+// confuse (the D1 lesson applied to metadata): multi-valued vs the same text in
+// one value, order, empty strings, case.
+var tenantValues = [][]string{
+	nil, {"a"}, {"b"}, {"a", "b"}, {"a, b"}, {"a,b"}, {"b", "a"}, {""}, {"", ""}, {"a", ""}, {"A"}, {"a b"}, {"a", "b", "c"}, {"a, b", "c"}, {"a", "b, c"},
+}
+
 func genMeta(t *rapid.T, i int) map[string][]string {
 	md := map[string][]string{}
-	switch rapid.IntRange(0, 5).Draw(t, "tenantv") {
-	case 0:
-	case 1:
-		md["tenant"] = []string{"a"}
-	case 2:
-		md["TENANT"] = []string{"b"}
-	case 3:
-		md["tenant"] = []string{"a", "b"}
-	case 4:
-		md["tenant"] = []string{""}
-	case 5:
-		md["Tenant"] = []string{"a"}
+	vs := tenantValues[rapid.IntRange(0, len(tenantValues)-1).Draw(t, "tenantv")]
+	if vs != nil {
+		key := rapid.SampledFrom([]string{"tenant", "TENANT", "Tenant"}).Draw(t, "tenantk")
+		md[key] = append([]string(nil), vs...)
 	}
-	switch rapid.IntRange(0, 3).Draw(t, "envv") {
+	switch rapid.IntRange(0, 4).Draw(t, "envv") {
 	case 1:
 		md["env"] = []string{"p"}
 	case 2:
 		md["env"] = []string{"q"}
 	case 3:
 		md["ENV"] = []string{"p", "q"}
+	case 4:
+		md["env"] = []string{"p, q"}
 	}
 	if rapid.Bool().Draw(t, "regionv") {
 		md["region"] = []string{"eu"}
